@@ -1484,6 +1484,15 @@ class Stopper(Commander):
             self.logger.debug(f'Stopper.store_application: stopping of {application.application_name}'
                               f' planned with priority={priority}')
 
+    def abort(self) -> None:
+        """ Abort all jobs, including the start requests that were pending on the completion of the stop jobs.
+
+        :return: None
+        """
+        super().abort()
+        self.application_start_requests = {}
+        self.process_start_requests = {}
+
     def after(self, application_job: ApplicationStopJobs) -> None:
         """ Once an application has been properly stopped, unset the application start failure.
         Trigger any pending application / process start once all stopper jobs are completed.
